@@ -1428,13 +1428,19 @@ fn format_hanging_expression_(
         }
         Expression::BinaryOperator { lhs, binop, rhs } => {
             // Don't format the lhs and rhs here, because it will be handled later when hang_binop_expression calls back for a Value
+            // The LHS of `^` must keep its parentheses around a unary operator, as on the single line path
+            let lhs_context = if let BinOp::Caret(_) = binop {
+                ExpressionContext::BinaryLHSExponent
+            } else {
+                ExpressionContext::UnaryOrBinary
+            };
             let lhs = hang_binop_expression(
                 ctx,
                 *lhs.to_owned(),
                 binop.to_owned(),
                 shape,
                 lhs_range,
-                ExpressionContext::UnaryOrBinary,
+                lhs_context,
             );
 
             let current_shape = shape.take_last_line(&lhs) + 1; // 1 = space before binop
